@@ -29,7 +29,7 @@ RowsOK(rows) == /\ Chk("plotly rows", rows, Ev.rows)
                    ELSE KssOK(rows, SeqMaxInt([k \in 1..Len(rows) |-> rows[k].cell]),
                               SeqMaxInt([k \in 1..Len(rows) |-> rows[k].cell + rows[k].diff]))
 PlotlyEv == /\ More /\ Ev.op = "plotly"
-            /\ RowsOK(Plotly(tree, Ev.id1, Ev.id2))
+            /\ RowsOK(PlotlyD(tree, Ev.id1, Ev.id2, Ev.maxd))
             /\ UNCHANGED <<cfg, tree>> /\ Adv
 Next == BuildEv \/ FillEv \/ ResetEv \/ KlEv \/ PlotlyEv
 Spec == Init /\ [][Next]_tvars
